@@ -112,7 +112,15 @@ type raceSlot struct{ w *raceWorkerProc }
 func startRaceWorker() *raceWorkerProc {
 	self, _ := os.Executable()
 	cmd := exec.Command(self, "race-worker")
-	cmd.Env = os.Environ()
+	// minimal fixed environment: every variable of the process environment is templated again for every
+	// task variable of every compilation, which dominates the run time under the race detector
+	home := filepath.Join(os.Getenv("VERIF_SCRATCH"), "home")
+	if os.Getenv("VERIF_SCRATCH") == "" {
+		home = os.TempDir()
+	}
+	os.MkdirAll(home, 0o755)
+	cmd.Env = []string{"PATH=" + os.Getenv("PATH"), "HOME=" + home, "NO_COLOR=1", "GORACE=" + os.Getenv("GORACE"),
+		"VERIF_SCRATCH=" + os.Getenv("VERIF_SCRATCH"), "VERIF_RACE_DEBUG=" + os.Getenv("VERIF_RACE_DEBUG")}
 	inp, _ := cmd.StdinPipe()
 	outp, _ := cmd.StdoutPipe()
 	eb := &tailBuf{max: 1 << 18}
